@@ -53,6 +53,12 @@ func (k Keeper) SendNftTransfer(
 
 	fullClassPath := class
 
+	// a class that was not issued by this module is native to this chain; its name is used as the
+	// base class of every voucher path, so it must not contain the path delimiter itself
+	if !strings.HasPrefix(class, CLASSPREFIX) && strings.Contains(class, DELIMITER) {
+		return errorsmod.Wrapf(types.ErrInvalidDenom, "native class %s contains the class path delimiter %s", class, DELIMITER)
+	}
+
 	// deconstruct the nft class into the class trace info to determine if the sender is the source chain
 	if strings.HasPrefix(class, CLASSPREFIX) {
 		fullClassPath, err = k.ClassPathFromHash(ctx, class)
